@@ -94,3 +94,25 @@ pub fn guarded<T, F: FnOnce() -> T + std::panic::UnwindSafe>(f: F) -> Result<T, 
 pub fn silence_panics() {
     std::panic::set_hook(Box::new(|_| {}));
 }
+
+pub fn unesc(s: &str) -> String {
+    let mut o = String::new();
+    let cs: Vec<char> = s.chars().collect();
+    let mut i = 0;
+    while i < cs.len() {
+        if cs[i] == '\\' && i + 2 < cs.len() && cs[i + 1] == 'u' && cs[i + 2] == '{' {
+            let mut j = i + 3;
+            let mut h = String::new();
+            while j < cs.len() && cs[j] != '}' {
+                h.push(cs[j]);
+                j += 1;
+            }
+            o.push(char::from_u32(u32::from_str_radix(&h, 16).unwrap()).unwrap());
+            i = j + 1;
+        } else {
+            o.push(cs[i]);
+            i += 1;
+        }
+    }
+    o
+}
